@@ -3,7 +3,9 @@ import ast
 
 from ..model import AnalysisError
 from ..lib import (FV, alias_term, decode_new, decode_call, phi_members, is_sym, is_const, is_str, simple_assigns,
-                   order_equiv)
+                   order_equiv, call_name)
+from ..lib import (reached_iff, reached_implies, implies_reached, reached_iff_any, path_term, cond_equiv, cond_implies,  # noqa: F401
+                   else_stmts, branch_stmts, context_literals)
 from ..cfg import always_raises, walk_stmts
 from . import common as cm
 from .common import FIELD, MESH, REGION
@@ -194,21 +196,19 @@ def d2_cellwise(chk, repo):
         okn = nv is not None and val is not None and v.eq(nv, v.ctx.mk(("sub",), (v.ctx.mk(("attr", "shape"), (val,)), v.ctx.const(-1))))
         chk.ob("field.Field._apply_operator::nvdim", okn, "C03.D2",
                f"nvdim={v.show(nv)}; expected the last-axis length of the result array", v.f, r)
-    # number / array operand: function(self.array, other)
-    cur = ifst
-    k = 0
-    while cur.orelse and len(cur.orelse) == 1 and isinstance(cur.orelse[0], ast.If):
-        cur = cur.orelse[0]
-        if always_raises(cur.body):
-            continue
-        for r, a in cm.returned_news(v, via=[cur.body[0]]):
-            val = a.get("value")
-            c = decode_call(v.ctx, val) if val is not None else None
-            ok = bool(c and c[0] == "param:function" and len(c[1]) == 2 and v.eq(c[1][0], v.spec("self.array"))
-                      and is_sym(v.ctx, c[1][1], "param:other"))
-            chk.ob(f"field.Field._apply_operator::plain-branch#{k}::value", ok, "C03.D2",
-                   f"value={v.show(val)}; expected function(self.array, other)", v.f, r)
-        k += 1
+    # number / array operand: function(self.array, other) - on the paths that do not pass the field branch the second
+    # argument is the operand itself (whatever the nesting of the alternatives)
+    for r, a in cm.returned_news(v):
+        val = a.get("value")
+        c = decode_call(v.ctx, val) if val is not None else None
+        ok = False
+        if c and c[0] == "param:function" and len(c[1]) == 2 and v.eq(c[1][0], v.spec("self.array")):
+            mem = phi_members(v.ctx, c[1][1])
+            plain = [m for m in mem if is_sym(v.ctx, m, "param:other")]
+            fld = [m for m in mem if v.eq(m, v.spec("o.array", env={"o": other}))]
+            ok = bool(plain) and len(plain) + len(fld) == len(mem)
+        chk.ob("field.Field._apply_operator::plain-branches::value", ok, "C03.D2",
+               f"value={v.show(val)}; expected function(self.array, other) for numbers and array-likes", v.f, r)
     # dot
     v = FV(repo, "field.Field.dot", param_types={"other": FIELD})
     ifst, first = cm.field_branch_stmt(v, "other")
@@ -392,27 +392,42 @@ def d4_rejection(chk, repo):
     # stacking
     v = FV(repo, "field.Field.__lshift__", param_types={"other": FIELD})
     ifst, first = cm.field_branch_stmt(v, "other")
+    from ..lib import reached_iff_any, reached_iff, reached_implies, implies_reached, path_term
+    other_is_field = v.spec("isinstance(other, self.__class__)")
+    ves = [r for r, n in v.raises() if n == "ValueError"]
+    g_hit = reached_iff_any(v, ves, v.ev._bool("and", [other_is_field, v.spec("self.mesh != other.mesh")])) or \
+        reached_iff_any(v, ves, v.ev._bool("and", [other_is_field, v.spec("not self.mesh.allclose(other.mesh)")]))
+    comb = [st for st, nm, t in simple_assigns(v) if call_name(v, t) in ("np.logical_and", "np.stack")]
     g_ok = False
-    st0 = ifst.body[0]
-    if isinstance(st0, ast.If) and always_raises(st0.body):
-        ct = v.ev.term(st0.test, at=st0)
-        g_ok = v.eq(ct, v.spec("self.mesh != other.mesh", at=st0)) or v.eq(ct, v.spec("not self.mesh.allclose(other.mesh)", at=st0))
+    if g_hit:
+        gpar = v.cfg.parent.get(id(g_hit[0]), (None,))[0]
+        gnode = v.cfg.node(gpar if gpar is not None else g_hit[0])
+        fnode = v.cfg.node(first)
+        g_ok = all(v.cfg.dominates(gnode, v.cfg.node(c)) for c in comb
+                   if c is first or v.cfg.reachable(fnode, v.cfg.node(c)))
     chk.ob("field.Field.__lshift__::mesh-guard", g_ok, "C03.D4",
-           "the field-operand branch of << must start by raising when the meshes differ", v.f, st0)
-    # TypeError fall-through
-    for q, pname in (("field.Field._apply_operator", "other"), ("field.Field.dot", "other"),
-                     ("field.Field.cross", "other"), ("field.Field.__lshift__", "other"),
-                     ("field.Field.angle", "vector"), ("field.Field.__rlshift__", "other")):
+           "a field operand on another mesh must be refused (ValueError) before the validities and arrays are combined", v.f,
+           g_hit[0] if g_hit else first)
+    # TypeError exactly for the operand types outside the supported set (reached-iff: independent of nesting and order)
+    SEQ_ = "(tuple, list, np.ndarray)"
+    unsupported = {
+        "field.Field._apply_operator": f"not isinstance(other, self.__class__) and not isinstance(other, numbers.Complex) "
+                                       f"and not isinstance(other, {SEQ_})",
+        "field.Field.dot": f"not isinstance(other, self.__class__) and not isinstance(other, {SEQ_})",
+        "field.Field.cross": f"not isinstance(other, self.__class__) and not isinstance(other, {SEQ_})",
+        "field.Field.__lshift__": f"not isinstance(other, self.__class__) and not isinstance(other, numbers.Complex) "
+                                  f"and not isinstance(other, {SEQ_})",
+        "field.Field.angle": f"not isinstance(vector, self.__class__) and not ((self.nvdim == 1 and "
+                             f"isinstance(vector, numbers.Complex)) or isinstance(vector, {SEQ_}))",
+        "field.Field.__rlshift__": f"not isinstance(other, numbers.Complex) and not isinstance(other, {SEQ_})",
+    }
+    for q, text in unsupported.items():
         v = FV(repo, q)
         tes = [r for r, n in v.raises() if n == "TypeError"]
-        ok = False
-        for r in tes:
-            # must be the final alternative of the isinstance chain
-            par = v.cfg.parent.get(id(r))
-            if par and isinstance(par[0], ast.If):
-                ok = True
-        chk.ob(f"{q}::unsupported-type-raises", ok, "C03.D4",
-               "operand types outside the supported set must end in a TypeError", v.f)
+        got = reached_iff_any(v, tes, v.spec(text)) if tes else []
+        chk.ob(f"{q}::unsupported-type-raises", bool(got), "C03.D4",
+               f"operand types outside the supported set must end in a TypeError, exactly: `{text}`; TypeErrors are reached "
+               f"under {[v.show(path_term(v, r))[:100] for r in tes][:3]}", v.f, got[0] if got else None)
     # numpy ufunc entry point
     v = FV(repo, "field.Field.__array_ufunc__")
     apply_call = None
@@ -635,8 +650,8 @@ def d8_conditions(chk, repo):
             continue
         pt = path_term(w, r_)
         seen.append(w.show(pt)[:140])
-        if cond_implies(w, pt, w.ev._bool("and", [is_seq, bad_shape])) and \
-                cond_implies(w, w.ev._bool("and", [others, is_seq, bad_shape]), pt):
+        if reached_implies(w, r_, w.ev._bool("and", [is_seq, bad_shape])) and \
+                implies_reached(w, w.ev._bool("and", [others, is_seq, bad_shape]), r_):
             hit = r_
     chk.ob("field.Field._apply_operator::array-operand-shape-guard", hit is not None, "C03.D8",
            "array-like operands must be refused exactly when they are neither a per-cell array of the field's shape, nor one "
@@ -684,12 +699,13 @@ def d8_conditions(chk, repo):
     for q in ("mesh.Mesh.__eq__", "region.Region.__eq__"):
         v = FV(repo, q)
         for r in v.returns():
-            par = v.cfg.parent.get(id(r))
-            if isinstance(r.value, ast.Constant) and par and isinstance(par[0], ast.If):
-                c = v.ev.term(par[0].test, at=par[0])
-                if par[1] != "body":
-                    c = v.ev._not(c)
-                _isinstance_polarity(chk, v, q, par[0], c, "is declared unequal")
+            if isinstance(r.value, ast.Constant):
+                # the constant answer is given exactly for objects that fail the type test (whichever way it is nested)
+                from ..lib import if_stmt_of
+                for test, pol, syn in v.cfg.must_literals(r):
+                    ifs = if_stmt_of(v, test)
+                    c = v.ev.term(test, at=ifs)
+                    _isinstance_polarity(chk, v, q, ifs, c if pol else v.ev._not(c), "is declared unequal")
             if isinstance(r.value, ast.Constant):
                 chk.ob(f"{q}::foreign-type-is-unequal", r.value.value is False, "C03.D8",
                        f"`{v.src(r)}`: the fallback for objects that are not compared attribute by attribute must be False",
@@ -786,23 +802,18 @@ def d8_conditions(chk, repo):
         chk.ob("field.Field.angle::scalar-result", a.get("nvdim") is not None and is_const(v.ctx, a["nvdim"], 1), "C03.D8",
                f"nvdim={v.show(a.get('nvdim'))}; an angle field has one component", v.f, r)
     w = FV(repo, "field.Field.angle")
-    cur = ifst
-    conv = 0
-    want = w.spec("(self.nvdim == 1 and isinstance(vector, numbers.Complex)) or isinstance(vector, (tuple, list, np.ndarray))")
+    want = w.spec("not isinstance(vector, self.__class__) and ((self.nvdim == 1 and isinstance(vector, numbers.Complex)) "
+                  "or isinstance(vector, (tuple, list, np.ndarray)))")
     want_new = w.spec("self.__class__(self.mesh, nvdim=self.nvdim, value=vector)")
-    while cur.orelse and len(cur.orelse) == 1 and isinstance(cur.orelse[0], ast.If):
-        cur = cur.orelse[0]
-        if always_raises(cur.body):
-            continue
-        conv += 1
-        cond = w.ev.term(cur.test, at=cur)
-        chk.ob("field.Field.angle::plain-operand-condition", w.eq(cond, want), "C03.D8",
-               f"plain operands are converted under {w.show(cond)}; expected: a number for scalar fields, or a sequence", w.f, cur)
-        asg = [x for x in simple_assigns(w, cur.body)]
-        ok = any(w.eq(t, want_new) for st, nm, t in asg)
-        chk.ob("field.Field.angle::plain-operand-conversion", ok, "C03.D8",
-               "a plain operand must become a field on self.mesh with self.nvdim components holding that value", w.f, cur)
-    chk.ob("field.Field.angle::plain-operands-supported", conv >= 1, "C03.D8", "numbers/sequences are no longer converted", w.f)
+    conv = [st for st, nm, t in simple_assigns(w) if w.eq(t, want_new)]
+    chk.ob("field.Field.angle::plain-operand-conversion", bool(conv), "C03.D8",
+           "a plain operand must become a field on self.mesh with self.nvdim components holding that value", w.f,
+           conv[0] if conv else None)
+    for st in conv:
+        chk.ob("field.Field.angle::plain-operand-condition", reached_iff(w, st, want), "C03.D8",
+               f"plain operands are converted under {w.show(path_term(w, st))[:160]}; expected: a number for scalar fields, or a "
+               "sequence (and not a field)", w.f, st)
+    chk.ob("field.Field.angle::plain-operands-supported", len(conv) >= 1, "C03.D8", "numbers/sequences are no longer converted", w.f)
     # ---- numpy ufunc protocol
     d8_ufunc(chk, repo)
 
